@@ -702,6 +702,10 @@ class PyFat(object):
             self.__seek(address)
             lfn_dir_data = self.__fp.read(dir_hdr_sz)
 
+        if len(lfn_dir_data) < dir_hdr_sz:
+            raise PyFATException("Directory entry lies beyond the end of "
+                                 "the device", errno=errno.EIO)
+
         lfn_hdr_layout = FATLongDirectoryEntry.FAT_LONG_DIRECTORY_LAYOUT
         lfn_dir_hdr = struct.unpack(lfn_hdr_layout, lfn_dir_data)
         lfn_dir_hdr = dict(zip(FATLongDirectoryEntry.FAT_LONG_DIRECTORY_VARS,
@@ -715,6 +719,10 @@ class PyFat(object):
             self.__seek(address)
             dir_hdr_size = FATDirectoryEntry.FAT_DIRECTORY_HEADER_SIZE
             dir_data = self.__fp.read(dir_hdr_size)
+
+        if len(dir_data) < dir_hdr_size:
+            raise PyFATException("Directory entry lies beyond the end of "
+                                 "the device", errno=errno.EIO)
 
         dir_hdr = struct.unpack(FATDirectoryEntry.FAT_DIRECTORY_LAYOUT,
                                 dir_data)
@@ -945,6 +953,10 @@ class PyFat(object):
         with self.__lock:
             self.__seek(0)
             boot_sector = self.__fp.read(512)
+
+        if len(boot_sector) < 512:
+            raise PyFATException("Device is too small to hold a boot sector",
+                                 errno=errno.EIO)
 
         self.bpb_header = BootSectorHeader()
         self.bpb_header.parse_header(boot_sector[:36])
